@@ -27,7 +27,15 @@ def det_scenarios(seed, tier):
     # structure-only speciation (no mutation-number term): exact ties between equally compatible species are common
     ties = [{"seed": seed * 613 + k, "popsize": 60, "executor": "seq", "start": "xor", "fitness": 7, "epochs": 20, "preset": [3, 0, 5, 1][k % 4],
              "override": {"mutdiff": 0, "thr": [2.5, 3.5][k // 4], "addnode": 0.2, "addlink": 0.3}} for k in range(8)]
-    modular = modular + ties
+    # re-seeded before every epoch: perturbed processes evolve another population of the same kind BETWEEN the epochs
+    # (process-wide state that an unrelated population can touch must not matter); restored populations (read) are in
+    reseed = [{"seed": seed * 389 + k, "popsize": [12, 20, 30][k % 3], "executor": "seq", "start": ["xor", "read", "rich", "random"][k % 4],
+               "fitness": [2, 6, 7, 3][k % 4], "epochs": 12, "preset": [0, 3, 5, 1][k % 4], "reseed": True,
+               "override": {"addnode": 0.3, "addlink": 0.3}} for k in range(4)]
+    # the way callers evolve populations: seed the global source, then Experiment.Execute (two trials)
+    execute = [{"seed": seed * 271 + k, "popsize": [10, 16][k % 2], "executor": "seq", "start": ["xor", "rich"][k % 2],
+                "fitness": [6, 2][k % 2], "epochs": 6, "preset": [0, 5][k % 2], "via": "execute"} for k in range(2)]
+    modular = modular + ties + reseed + execute
     if tier == "quick":
         picked = scs[::4][:10] + modular
         for s in picked:
@@ -35,7 +43,7 @@ def det_scenarios(seed, tier):
     else:
         picked = scs + modular + [dict(m, seed=m["seed"] + 10, preset=(m["preset"] + 1) % 6) for m in modular]
         for i, s in enumerate(picked):
-            s["epochs"] = 40 if s["popsize"] <= 20 else 20
+            s["epochs"] = (40 if s["popsize"] <= 20 else 20) if s.get("via") != "execute" else 10
             s["seed"] = seed * 7919 + i
     return picked
 
@@ -46,8 +54,9 @@ def c17(ctx, replay):
     nproc = 6 if thorough else 5
     ctx.rule = ("scenarios = constructor (NewPopulation from two non-modular start genomes and a modular one with two modules, NewPopulationRandom, ReadPopulation) x option preset x "
                 "fitness family x population size (plus modular genomes and structure-only speciation where exact distance ties are common), sequential executor; each list of scenarios is run in %d separate processes under "
-                "different GOMAXPROCS / GOGC / environment size / heap ballast / an unrelated clock-seeded evolution before re-seeding / "
-                "forced collections; every construction and epoch is logged as SHA-1 digests of the exact float64 bit patterns of all "
+                "different GOMAXPROCS / GOGC / environment size / heap ballast / an unrelated clock-seeded evolution before re-seeding "
+                "(and, in the scenarios that re-seed before every epoch, also between the epochs, on a population of the same kind) / "
+                "forced collections / the same scenario already run once earlier in the process; some scenarios go through Experiment.Execute (RandSeed 0); every construction and epoch is logged as SHA-1 digests of the exact float64 bit patterns of all "
                 "organisms, the species table and the counters; Determinism.tla requires the l-th states of all runs to be identical; "
                 "non-trivial = epochs compared across processes" % nproc)
     ctx.assumptions = ["the fitness function of the driver is deterministic (own seeded generator, not the global source)",
